@@ -22,7 +22,7 @@ RULE = ('IPTW (n 40-80): frames with continuous + categorical predictors (separa
         'p incl. 0 and 1, optional weights; IPMW (n 40-90): monotone patterns over 1-3 variables (distinct, uniform-all, '
         'uniform-first-pair, uniform-last-pair, str / list argument, fewer models than variables), stabilized or not, '
         'stratum-saturated models for the telescoping identity, index kinds range/shift/shuffle/float/str/dup, plus the two '
-        'uniformity predicates called directly; IPCW (14-30 subjects, <= 5 visits): long data, shuffled / reversed / sorted input, '
+        'uniformity predicates called directly; IPCW (14-30 subjects, <= 5 visits): long data, shuffled / reversed / sorted / grouped-by-id-but-time-permuted input, '
         'equal times across subjects, duplicated (id,time) keys, events before the last row, integer and half-integer time grids, '
         'all index kinds, a second permutation of every input.  Every row of every case is compared (tol 1e-9, inside Coq) with the '
         'model AND the specification evaluated at the code\'s own fitted probabilities; non-trivial = distinct (class, options, '
@@ -789,11 +789,23 @@ def gen_ipcw_case(ctx):
             cand = [q for q in rows if q['t'] < max(p['t'] for p in rows if p['id'] == q['id'])]
             for q in r.sample(cand, min(2, len(cand))):
                 q['d'] = 1
-        order = r.choice(['shuffled', 'shuffled', 'shuffled', 'sorted', 'reversed'])
+        order = r.choice(['shuffled', 'shuffled', 'by-id-time-permuted', 'by-id-time-permuted', 'sorted', 'reversed'])
         if order == 'shuffled':
             r.shuffle(rows)
         elif order == 'reversed':
             rows.reverse()
+        elif order == 'by-id-time-permuted':
+            # grouped by subject with ascending ids (as after a sort on id only), but NOT chronological within subject;
+            # the first visit stays first so the late-entry guard of the constructor is not what answers
+            out = []
+            for sid in sorted({q['id'] for q in rows}):
+                grp = sorted([q for q in rows if q['id'] == sid], key=lambda q: q['t'])
+                rest = grp[1:]
+                r.shuffle(rest)
+                if len(rest) > 1 and rest == sorted(rest, key=lambda q: q['t']):
+                    rest.reverse()
+                out += grp[:1] + rest
+            rows = out
         df = pd.DataFrame(rows)
         df['rid'] = np.arange(len(df))
         df, kind = datagen.reindex(df, r)
